@@ -228,7 +228,7 @@ func (c *Checker) batch(obs []Oblig) {
 			ds = append(ds, And(o.PC, Not(o.Cond)))
 		}
 		q := SMTQuery([]*Term{Or(ds...)}, nil)
-		r := Solve(q, c.allBackends)
+		r := solveT(q, c.allBackends, 3*time.Second) // the batch is an optimisation: give up early, decide singly
 		if r.Result == "unsat" {
 			for _, o := range live {
 				c.add(ObResult{Name: o.Name, Kind: o.Kind, Result: "discharged", Backend: r.Backend + "(batch)", Seconds: r.Seconds / float64(len(live)), Tried: r.Tried, Size: len(q.Text) / len(live)})
@@ -253,6 +253,15 @@ func (c *Checker) single(o Oblig) {
 	if os.Getenv("SNESVC_DEBUG") != "" {
 		for _, v := range vars {
 			fmt.Fprintf(os.Stderr, "DBG %s var %s op=%s\n", o.Name, termLabel(v), v.Op)
+		}
+	}
+	if !c.allBackends {
+		// cheap first attempt on one back end without model extraction; the race is for the hard ones
+		q0 := SMTQuery([]*Term{o.PC, Not(o.Cond)}, nil)
+		if r0 := runSolver("z3-new", q0, 3*time.Second); r0.Result == "unsat" {
+			oo := o
+			c.add(ObResult{Name: o.Name, Kind: o.Kind, Result: "discharged", Backend: "z3-new", Seconds: r0.Seconds, Size: len(q0.Text), ob: &oo})
+			return
 		}
 	}
 	q := SMTQuery([]*Term{o.PC, Not(o.Cond)}, modelTerms(vars))
